@@ -640,13 +640,20 @@ def Mgr.act (O : Orders) (m : Mgr) : Action → Mgr
   | .knowUsers ids => { m with users := m.users ++ ids }
   | .setPriv c on => { m with w := { m.w with priv := if on then c :: m.w.priv else m.w.priv.filter (· != c) } }
 
-/-- `Manager.Run` from a persisted state: startup differences, then the actions, each followed
-by quiescence. -/
-def Mgr.start (O : Orders) (w : World) (pts qts : Int) (chans : List (Nat × Int)) : Mgr :=
+/-- `Manager.loadState` when the storage holds no state: the remote state (`updates.getState`) is
+what the client starts from, and it is written at once (`SetState`). -/
+def Mgr.firstState (O : Orders) (m : Mgr) : Mgr :=
+  ((m.emit [.storeState m.pts.state m.qts.state]).seqOpQuiet O 0 (.seq storeOnlyShape m.pts.state [])).seqOpQuiet O 1
+    (.seq storeOnlyShape m.qts.state [])
+
+/-- `Manager.Run` from a persisted state (`noState`: from nothing — then `pts qts` are the server's
+state at that moment): startup differences, then the actions, each followed by quiescence. -/
+def Mgr.start (O : Orders) (w : World) (pts qts : Int) (chans : List (Nat × Int)) (noState : Bool := false) : Mgr :=
   -- `loadChannels`: stored channels whose access hash is unknown are skipped
   let m : Mgr := { pts := { state := pts }, qts := { state := qts },
                    chans := (chans.filter fun c => !w.hashUnknown c.1).map fun c => { id := c.1, box := { state := c.2 } },
                    w := w }
+  let m := if noState then m.firstState O else m
   let m := m.getDifference O fuel0
   let m := (m.chans.map (·.id)).foldl (fun (m : Mgr) c => m.chGetDifference O c fuel0) m
   m.settle O fuel0
